@@ -282,6 +282,7 @@ let rec drop_prefix (a : 'a list) (b : 'a list) : 'a list =
 
 (* one schedule operation; returns the new state, the model's output tokens and observation tokens *)
 type op = OCall of tid * (meth * int) | OStep of tid * string | OCancel | OEnd
+        | OBegin of tid * (meth * int) | OFinish of tid    (* unscheduled runs: a call starts / ends *)
 
 let op_s (o : op) (extras : tid list) : string =
   let ex = String.concat "" (List.map (fun t -> " +" ^ tid_s t) extras) in
@@ -290,6 +291,8 @@ let op_s (o : op) (extras : tid list) : string =
   | OStep (t, site) -> Printf.sprintf "%s %s%s" (tid_s t) site ex
   | OCancel -> "X cancel" ^ ex
   | OEnd -> "E"
+  | OBegin (t, c) -> Printf.sprintf "%s begin %s" (tid_s t) (tok_of_call c)
+  | OFinish t -> Printf.sprintf "%s end" (tid_s t)
 
 let parse_op (t : string list) : op * tid list =
   let extras = List.filter_map (fun s -> if String.length s > 1 && s.[0] = '+' then
@@ -299,6 +302,8 @@ let parse_op (t : string list) : op * tid list =
   | ["E"] -> (OEnd, [])
   | ["X"; "cancel"] -> (OCancel, extras)
   | [t; "call"; c] -> (OCall (tid_of t, call_of_tok c), extras)
+  | [t; "begin"; c] -> (OBegin (tid_of t, call_of_tok c), extras)
+  | [t; "end"] -> (OFinish (tid_of t), extras)
   | [t; site] -> (OStep (tid_of t, site), extras)
   | _ -> raise (Bad ("op: " ^ String.concat " " t))
 
@@ -362,6 +367,7 @@ let mstep (p : prog) (ms : mstate) (o : op) : (mstate * string list * string lis
   | OEnd ->
       let out = List.map (fun t -> tid_s t ^ ":" ^ final_status ms.conf t) all_tids in
       Some (ms, out, [], [])
+  | OBegin _ | OFinish _ -> None
 
 (* the operations enabled in the model *)
 let enabled_ops (p : prog) (ms : mstate) (with_cancel : bool) : op list =
@@ -527,9 +533,16 @@ let do_enum (irf : string) (out : string) (tier : string) (seed : int) (maxn : i
       end
     end) (read_corpus corpus);
   let from_corpus = !total in
-  let cfgs = if tier = "thorough" then thorough_cfgs else if tier = "none" then [] else quick_cfgs in
-  let per_cfg = max 4 (maxn / (max 1 (List.length cfgs))) in
-  List.iter (fun g ->
+  let plan =
+    if tier = "none" then []
+    else if tier = "thorough" then
+      (* the built-in scripts with a large cap (most are enumerated completely), then every pair of
+         scripts of at most 3 calls with a small one *)
+      List.map (fun g -> (g, max 4 (maxn * 3 / 4 / List.length quick_cfgs))) quick_cfgs @
+      List.map (fun g -> (g, max 4 (maxn / 4 / List.length thorough_cfgs))) thorough_cfgs
+    else List.map (fun g -> (g, max 4 (maxn / List.length quick_cfgs))) quick_cfgs in
+  let cfgs = List.map fst plan in
+  List.iter (fun (g, per_cfg) ->
     (* enumerate completely when the space is small, sample otherwise *)
     let buf = ref [] in
     let (n, complete) = enumerate p g g.g_c (per_cfg + 1) (fun ops -> buf := ops :: !buf) in
@@ -548,7 +561,7 @@ let do_enum (irf : string) (out : string) (tier : string) (seed : int) (maxn : i
         end
       done;
       incr sampled
-    end) cfgs;
+    end) plan;
   close_out oc;
   Printf.printf "enum schedules=%d configs=%d exhaustive_configs=%d sampled_configs=%d corpus_histories=%d corpus_replayed_verbatim=%d corpus_schedules=%d\n"
     !total (List.length cfgs) !exhaustive !sampled !ncorpus !nexplicit from_corpus
@@ -738,19 +751,29 @@ type hist = {
   mutable h_rows : (string list * string list * string list) list;   (* reversed *)
 }
 
-let parse_trace (path : string) : hist list =
-  let hs = ref [] in
-  List.iteri (fun i line ->
-    if String.length line > 0 && line.[0] <> '#' then
-      match split_semis line with
-      | [a; b; c] ->
-          (match a with
-           | "H" :: _ -> hs := { h_line = i + 1; h_head = a; h_out = b; h_rows = [] } :: !hs
-           | _ -> (match !hs with
-               | h :: _ -> h.h_rows <- (a, b, c) :: h.h_rows
-               | [] -> raise (Bad "row before H")))
-      | _ -> raise (Bad ("line " ^ string_of_int (i + 1)))) (read_lines path);
-  List.rev !hs
+(* streams the histories of a trace file *)
+let each_history (path : string) (f : hist -> unit) : unit =
+  let ic = open_in path in
+  let cur = ref None in
+  let flush () = (match !cur with Some h -> f h | None -> ()); cur := None in
+  let ln = ref 0 in
+  (try
+     while true do
+       let line = input_line ic in
+       incr ln;
+       if String.length line > 0 && line.[0] <> '#' then
+         match split_semis line with
+         | [a; b; c] ->
+             (match a with
+              | "H" :: _ -> flush (); cur := Some { h_line = !ln; h_head = a; h_out = b; h_rows = [] }
+              | _ -> (match !cur with
+                  | Some h -> h.h_rows <- (a, b, c) :: h.h_rows
+                  | None -> raise (Bad "row before H")))
+         | _ -> raise (Bad ("line " ^ string_of_int !ln))
+     done
+   with End_of_file -> ());
+  flush ();
+  close_in ic
 
 (* events of the implementation, from one row *)
 let impl_events (o : op) (out : string list) (obs : string list) : event list =
@@ -775,24 +798,29 @@ let impl_events (o : op) (out : string list) (obs : string list) : event list =
   | OStep (t, _) -> evs @ (match out with st :: _ -> of_status t st | [] -> [])
   | OCancel -> ECancel :: evs
   | OEnd -> []
+  | OBegin (t, (m, a)) -> evs @ [ECall (t, m, nat_of_int a)]
+  | OFinish t -> evs @ (match out with st :: _ -> of_status t st | [] -> [])
 
 (* The end-of-run claim (nobody is left waiting for nothing) is only made when the run is
    at rest: a goroutine still parked at a yield point has steps left (the schedule is a
    prefix), so nothing can be said yet about those it may still wake. *)
-let impl_stuck (out : string list) (cancelled : bool) : stuck list =
+let impl_stuck (out : string list) (cancelled : bool) (at_rest : bool option) : stuck list =
   let sts = List.filter_map (fun s ->
     match String.index_opt s ':' with
     | None -> None
     | Some i -> Some (tid_of (String.sub s 0 i), String.sub s (i + 1) (String.length s - i - 1))) out in
-  let pending = List.exists (fun (t, st) ->
-    String.length st > 5 && String.sub st 0 5 = "park:" && not (t = TW && st = "park:await" && not cancelled)) sts in
+  (* while the model follows the run it knows whether a parked goroutine can move at all *)
+  let pending = (match at_rest with
+    | Some b -> not b
+    | None -> List.exists (fun (t, st) ->
+        String.length st > 5 && String.sub st 0 5 = "park:" && not (t = TW && st = "park:await" && not cancelled)) sts) in
   if pending then [] else
   List.concat_map (fun (t, st) ->
     match st, t with
     | ("idle" | "fin" | "none"), _ -> []
     | "inwait", TW -> [StuckOther t]
     | "inwait", _ -> [StuckWait t]
-    | "park:await", TW -> []
+    | "park:await", TW -> if cancelled then [StuckOther t] else []
     | _, _ -> [StuckOther t]) sts
 
 type verdict = {
@@ -830,7 +858,13 @@ let judge_stream (p : prog option) (h : hist) : verdict =
         if o = OCancel then cancelled := true;
         (match out with "div" :: _ -> if !acc = None then acc := Some (i, "harness") | _ -> ());
         events := !events @ impl_events o out obs;
-        if o = OEnd then stuck := impl_stuck out !cancelled;
+        if o = OEnd then begin
+          let at_rest = (match p with
+            | Some p when !model_alive && !acc = None ->
+                Some (not (List.exists (fun o -> match o with OStep _ -> true | _ -> false) (enabled_ops p !ms false)))
+            | _ -> None) in
+          stuck := impl_stuck out !cancelled at_rest
+        end;
         (match p with
          | Some p when !model_alive && !acc = None ->
              (match mstep p !ms o with
@@ -888,44 +922,46 @@ let coq_useen (o : useen) : string =
     (coq_list (fun (k, v) -> "(" ^ coq_ukey k ^ ", " ^ (match v with Some x -> "Some (" ^ coq_uval x ^ ")" | None -> "None") ^ ")") o.s_values)
     (coq_nat o.s_ret)
 
-let do_trace (trace : string) (irf : string option) (coq : (string * int) option) : unit =
+let do_trace (trace : string) (irf : string option) (coq : (string * int * int) option) : unit =
   let p = (match irf with Some f -> Some (parse_ir f) | None -> None) in
-  let hs = parse_trace trace in
-  let cases = ref [] in
-  List.iteri (fun i h ->
+  let stride, maxn = (match coq with Some (_, maxn, total) -> (max 1 (total / (max 1 maxn)), maxn) | None -> (1, 0)) in
+  let oc = (match coq with
+    | Some (file, _, _) ->
+        let oc = open_out file in
+        output_string oc "From Coq Require Import List Bool Arith.\nFrom GV Require Import Stream.Sem Stream.Monitors Stream.Unary.\nImport ListNotations.\n";
+        Some oc
+    | None -> None) in
+  let k = ref 0 and i = ref 0 in
+  each_history trace (fun h ->
     let (v, un) =
       (match h.h_head with
        | "H" :: "U" :: _ -> let (v, x) = judge_unary h in (v, Some x)
        | _ -> (judge_stream p h, None)) in
-    let (what, known) = if v.v_mon || v.v_kind = "unary" then ("-", "") else describe_failure v.v_events v.v_stuck in
-    Printf.printf "hist %d line %d nev %d acc %s m:c12 %d %d f:kind_%s 1%s w:%s\n" i h.h_line (List.length h.h_rows)
+    let (what, known) =
+      if v.v_mon then ("-", "") else if v.v_kind = "unary" then ("unary-not-transparent", "")
+      else describe_failure v.v_events v.v_stuck in
+    Printf.printf "hist %d line %d nev %d acc %s m:c12 %d %d f:kind_%s 1%s w:%s\n" !i h.h_line (List.length h.h_rows)
       (match v.v_acc with None -> "ok" | Some (k, cls) -> Printf.sprintf "div %d %s" k cls)
       (if v.v_mon then 1 else 0) v.v_fail v.v_kind (if known <> "" then " f:k_" ^ known ^ " 1" else "") what;
-    cases := (v, un) :: !cases) hs;
-  match coq with
-  | None -> ()
-  | Some (file, maxn) ->
-      let all = List.rev !cases in
-      let n = List.length all in
-      let stride = max 1 (n / (max 1 maxn)) in
-      let oc = open_out file in
-      output_string oc "From Coq Require Import List Bool Arith.\nFrom GV Require Import Stream.Sem Stream.Monitors Stream.Unary.\nImport ListNotations.\n";
-      let k = ref 0 in
-      List.iteri (fun i (v, un) ->
-        if i mod stride = 0 && !k < maxn then begin
-          (match un with
-           | Some (u, o) ->
-               Printf.fprintf oc "Definition case_%d : bool * bool := (andb (unary_ok (%s) (%s)) true, %s).\n" !k
-                 (coq_ucall u) (coq_useen o) (coq_bool v.v_mon)
-           | None ->
-               Printf.fprintf oc "Definition case_%d : bool * bool := (C12_final_ok %s %s, %s).\n" !k
-                 (coq_list coq_event v.v_events) (coq_list coq_stuck v.v_stuck) (coq_bool v.v_mon));
-          incr k
-        end) all;
+    (match oc with
+     | Some oc when !i mod stride = 0 && !k < maxn ->
+         (match un with
+          | Some (u, o) ->
+              Printf.fprintf oc "Definition case_%d : bool * bool := (andb (unary_ok (%s) (%s)) true, %s).\n" !k
+                (coq_ucall u) (coq_useen o) (coq_bool v.v_mon)
+          | None ->
+              Printf.fprintf oc "Definition case_%d : bool * bool := (C12_final_ok %s %s, %s).\n" !k
+                (coq_list coq_event v.v_events) (coq_list coq_stuck v.v_stuck) (coq_bool v.v_mon));
+         incr k
+     | _ -> ());
+    incr i);
+  match oc with
+  | Some oc ->
       Printf.fprintf oc "Definition all_cases : list (nat * (bool * bool)) := [%s].\n"
         (String.concat "; " (List.init !k (fun j -> Printf.sprintf "(%d, case_%d)" j j)));
       output_string oc "Definition mismatches : list nat :=\n  Eval vm_compute in map fst (filter (fun c => negb (Bool.eqb (fst (snd c)) (snd (snd c)))) all_cases).\nPrint mismatches.\n";
       close_out oc
+  | None -> ()
 
 let () =
   try
@@ -936,10 +972,10 @@ let () =
     | _ :: trace :: rest ->
         let rec opts l ir coq = match l with
           | "--ir" :: f :: r -> opts r (Some f) coq
-          | "--coq" :: f :: n :: r -> opts r ir (Some (f, int_of_string n))
+          | "--coq" :: f :: n :: total :: r -> opts r ir (Some (f, int_of_string n, int_of_string total))
           | [] -> (ir, coq)
           | x :: _ -> raise (Bad ("argument " ^ x)) in
         let (ir, coq) = opts rest None None in
         do_trace trace ir coq
-    | _ -> prerr_endline "usage: stream_driver check <ir> [witness.hist] | enum <ir> <out> <tier> <seed> <max> | <trace> [--ir <ir>] [--coq <file> <max>]"; exit 2
+    | _ -> prerr_endline "usage: stream_driver check <ir> [witness.hist] | enum <ir> <out> <tier> <seed> <max> | <trace> [--ir <ir>] [--coq <file> <max> <total>]"; exit 2
   with Bad m -> prerr_endline ("stream_driver: " ^ m); exit 3
